@@ -2,6 +2,5 @@ package main
 
 type fieldRef struct{ pkg, typ, field string }
 
-func ruleConfigKeying(w *World, r *Run, rule string)                               {}
-func ruleSentinelExhaustive(w *World, r *Run, a *updAnalysis, rule string)         {}
-func ruleInitBeforeUse(w *World, r *Run, rule string)                              {}
+func ruleConfigKeying(w *World, r *Run, rule string)  {}
+func ruleInitBeforeUse(w *World, r *Run, rule string) {}
